@@ -66,5 +66,5 @@ MANIFEST = {
             "02d8de59, 7be8c4c6, 239f0a59): their scenarios stay in the corpus and fail the check if the behaviour returns. Open: "
             "F-C04-2 (activation re-issues ROAs outside a shrunken new certificate). Real cryptography, manifests/CRLs and the wall clock are outside the model.",
     "technique": "Lean 4 proof (invariants by induction over command histories, finite abstraction + decide, concrete counter-examples) "
-                 "+ source translators (panic domains of the apply functions; body of KeyState::knows_key = the model: gen_knows_key_eq_model) + correspondence check",
+                 "+ source translators (panic domains of the apply functions; bodies of KeyState::knows_key and KeyState::append_keyroll_activate = the model: gen_knows_key_eq_model, gen_append_keyroll_activate_eq_model) + correspondence check",
 }
